@@ -33,8 +33,13 @@ func NewClientWorker(parentLogger logger.Logger, args base.ChunkConsumerArgs, me
 	rq.Header.Add("DD-API-KEY", os.Getenv("DD_API_KEY"))
 
 	worker := &clientWorker{
-		logger:  parentLogger,
-		client:  &http.Client{Timeout: cfg.HTTPTimeout},
+		logger: parentLogger,
+		client: &http.Client{
+			Timeout: cfg.HTTPTimeout,
+			// a redirected POST would be re-issued as a GET without the chunk (301, 302, 303) and the answer to that GET
+			// taken as the acknowledgement of the chunk: hand the 3xx response to SendChunk instead, which reports an error
+			CheckRedirect: func(*http.Request, []*http.Request) error { return http.ErrUseLastResponse },
+		},
 		request: rq,
 	}
 
@@ -69,6 +74,10 @@ func (worker *clientWorker) SendChunk(chunk base.LogChunk, _ time.Time) error {
 			return fmt.Errorf("couldn't read response body: %w", err)
 		}
 		return fmt.Errorf("got a status %d with body %s", resp.StatusCode, body)
+	}
+	if resp.StatusCode < 200 {
+		// 101 Switching Protocols is handed over as a final response: only a 2xx answer is an acknowledgement
+		return fmt.Errorf("got a status %d", resp.StatusCode)
 	}
 	return nil
 }
